@@ -57,6 +57,8 @@ func workloads(nosync bool) []Workload {
 		{"W-c: five rounds, leveled compaction (partial then full)", c(1), alpha, []string{"B0", "M", "P", "B1", "M", "P", "B2", "M", "P", "B3", "M", "P", "B4", "M", "P"}},
 		{"W-d: two rounds, revert to the first, one more round", c(0), alpha, []string{"B0", "M", "P", "B1", "M", "P", "V1", "B3", "M", "P"}},
 		{"W-e: three appending rounds with a child collection", c(0), childAlpha, []string{"B0", "M", "P", "B1", "M", "P", "B2", "M", "P"}},
+		{"W-f: leveled compaction, history ends right after a partial compaction (four rounds)", c(1), alpha, []string{"B0", "M", "P", "B1", "M", "P", "B2", "M", "P", "B3", "M", "P"}},
+		{"W-g: leveled compaction, three rounds", c(1), alpha, []string{"B0", "M", "P", "B1", "M", "P", "B2", "M", "P"}},
 	}
 }
 
